@@ -23,7 +23,8 @@ props.prop(
     decides='that no selection/region/link/coordinate class is saved by an empty family saver or restored as '
             'another class, that every saved key is read back into the field it came from, that nothing the '
             'behaviour depends on is dropped, that inherited loaders fit the constructors they call, and that '
-            'back-references are resolved only after the object is registered',
+            'back-references are resolved only after the object is registered; that a function is saved by name only after '
+            'an identity test of what the name resolves to',
     not_decided='values (numpy/base64/JSON round-trip of numbers), files re-read by LoadLog, State subclasses '
                 '(callback properties discovered at run time), classes outside glue/',
     assumptions=['a saver that raises is a loud failure and satisfies the property',
